@@ -35,7 +35,7 @@ META = {
 P = "MjProof.C43."
 THEOREMS = [P + t for t in (
     "mjx_quat_mul_eq_c", "mjx_quat_mul_axis_eq_c", "mjx_rotate_eq_c", "mjx_rotate_sub_c", "mjx_quat_to_mat_eq_c",
-    "mjx_axis_angle_to_quat_eq_c", "mjx_motion_cross_eq_c", "mjx_motion_cross_force_eq_c", "mjx_inert_mul_eq_c")]
+    "mjx_axis_angle_to_quat_eq_c", "mjx_motion_cross_eq_c", "mjx_motion_cross_force_eq_c", "mjx_inert_mul_eq_c", "mjx_kbi_eq_c")]
 THEOREMS_GATE = [P + "gate_matches_spec", P + "deviations_used"]
 
 KERNELS = ["mju_mulQuat", "mju_mulQuatAxis", "mju_rotVecQuat", "mju_quat2Mat", "mju_axisAngle2Quat", "mju_quatIntegrate",
@@ -51,6 +51,7 @@ TOL_PIPE = 1e-6      # DESIGN §5.C43; observed (calibration seeds 0..40): kinem
 # contact geometry and everything downstream of it: MJX regularises closest_segment_point with `+ 1e-6` in the denominator
 # (math.py), i.e. capsule contacts deviate by design by ~1e-6/|segment|^2 (observed up to 3e-5 in the normal); bound 2e-4
 TOL_CONTACT = 2e-4
+TOL_FAMILY = 1e-6    # the constraint-parameter family has plane/sphere and sphere/sphere contacts only (no regularised segment distance)
 CONTACT_DEP = ("qfrc_constraint", "qacc", "sensordata", "qvel", "qpos", "qacc_warmstart", "act")
 fbits, frombits = kernelval.fbits, kernelval.frombits
 
@@ -349,7 +350,7 @@ class Pair:
         cc = []
         for part in co.split(":", 1)[1].split("|"):
             w = part.split()
-            if len(w) == 19:
+            if len(w) == 19 and int(w[3]) == 0:   # (exclude = 1: inside the gap, listed by C but without constraint rows; MJX has no gap)
                 cc.append({"geom": (int(w[0]), int(w[1])), "dim": int(w[2]), "dist": float(w[4]), "pos": [float(x) for x in w[6:9]],
                            "frame": [float(x) for x in w[9:18]]})
         mc = [c for c in json.loads(self.h.ask("out contacts"))["contacts"] if c["dist"] < c["includemargin"]]
@@ -385,7 +386,9 @@ class Pair:
                           dict(replay, mjx_contact=extra[0], c_contacts=cc[:6]))
         return len(cc)
 
-    def compare_efc(self, replay):
+    def compare_efc(self, replay, tol=None, tag="", tol_static=float("inf")):
+        """tol_static: bound for the rows' solver-independent quantities (pos - margin, aref, D) when it is tighter than tol"""
+        tol = TOL_CONTACT if tol is None else tol
         e = json.loads(self.h.ask("out efc"))["efc"]
         nefc = int(self.c.ask("scalar 0 nefc"))
         self.orc.n += 1
@@ -402,8 +405,8 @@ class Pair:
                 continue
             c, m = sorted(c), sorted(mpm if name == "pos" else e[name])
             d = reldev(c, m)
-            self.dev["efc:" + name] = max(self.dev.get("efc:" + name, 0.0), d)
-            if not d <= TOL_CONTACT:
+            self.dev[tag + "efc:" + name] = max(self.dev.get(tag + "efc:" + name, 0.0), d)
+            if not d <= (tol if name == "force" else min(tol, tol_static)):
                 self.orc.fail("c43:efc:" + name, "sorted %s differs between C and MJX by %.3g" % (f, d), dict(replay, c=c[:12], mjx=m[:12]))
 
 
@@ -418,7 +421,341 @@ class Oracle:
             self.ctx.oracle_failure(key, what, replay)
 
 
+# ------------------------------------------------------------------------------------------ constraint parameters: K, B, I
+# one single-joint `joint` equality: its row has efc_pos = qpos, margin 0, so (eq_solref, eq_solimp, opt.timestep, REFSAFE, qpos) drive the
+# real getsolparam / getimpedance / mj_makeImpedance of the tree with arbitrary arguments (op `kbip` of harness/c/c43_engine.c)
+KBI_MODEL = ["body 2 0", "joint 3 2", "name 3 j", "set 3 axis 0 1 0", "geom 4 2", "set 4 size 0.1", "set 4 contype 0", "set 4 conaffinity 0",
+             "equality 5", "set 5 type %d" % E("mjEQ_JOINT"), "set 5 objtype %d" % E("mjOBJ_JOINT"), "set 5 name1 j", "set 5 data 0 1 0 0 0"]
+MINVAL, MINIMP, MAXIMP = 1e-15, 1e-4, 0.9999
+TOL_KBI = 1e-11    # per component, relative; observed <= 4e-15 (pow of XLA vs libm)
+
+
+def _clip(x, lo, hi):
+    return min(max(x, lo), hi)
+
+
+def kbi_class(rs, ts, sr0, sr1, d0, d1, w, mid, p, pos):
+    """the situations outside the hypotheses of theorem mjx_kbi_eq_c (None = inside: C and MJX are proved to agree over the reals)"""
+    if (sr0 > 0) != (sr1 > 0):
+        return "mixed-solref"
+    e0, e1 = _clip(d0, MINIMP, MAXIMP), _clip(d1, MINIMP, MAXIMP)
+    if e0 > e1:
+        return "dmin-gt-dmax"
+    if w <= 2 * MINVAL and e0 != e1:
+        return "width-below-minval"
+    tc = max(sr0, 2 * ts) if rs else sr0
+    if sr0 > 0 and (e1 * e1 * tc * tc * sr1 * sr1 < 2 * MINVAL or e1 * tc < 2 * MINVAL):
+        return "denominator-below-minval"
+    return None
+
+
+def kbi_input(rng):
+    """-> (argument list rs ts sr0 sr1 d0 d1 width mid power pos, tags)"""
+    tags = []
+    rs = rng.choice((1.0, 1.0, 0.0))
+    ts = rng.choice((0.0005, 0.002, 0.01, 0.05))
+    tags.append("refsafe=%d" % rs)
+    f = rng.choice(("standard", "standard", "standard", "standard-below-2dt", "standard-below-2dt", "direct", "direct", "direct", "direct-zero", "mixed"))
+    if f == "standard":
+        sr = [10 ** rng.uniform(-2.5, -0.5), rng.choice((1.0, rng.uniform(0.1, 2.5)))]
+    elif f == "standard-below-2dt":
+        sr = [ts * rng.choice((0.1, 0.5, 1.0, 1.9, 2.0)), rng.uniform(0.3, 1.5)]
+    elif f == "direct":
+        sr = [-10 ** rng.uniform(0, 4.5), -10 ** rng.uniform(-1, 2.5)]
+    elif f == "direct-zero":
+        sr = rng.choice(([0.0, 0.0], [-10 ** rng.uniform(0, 4), 0.0], [0.0, -10 ** rng.uniform(-1, 2)]))
+    else:
+        sr = rng.choice(([rng.uniform(0.005, 0.1), -rng.uniform(1, 50)], [-rng.uniform(10, 1000), rng.uniform(0.2, 2)], [rng.uniform(0.005, 0.1), 0.0]))
+    tags.append("solref=" + f)
+    g = rng.choice(("ordered", "ordered", "ordered", "ordered", "ordered", "equal", "reversed", "out-of-range", "out-of-range"))
+    a, b = sorted((rng.uniform(0.0, 1.0), rng.uniform(0.0, 1.0)))
+    if g == "equal":
+        b = a
+    elif g == "reversed":
+        a, b = b, a
+    elif g == "out-of-range":
+        a, b = rng.choice(((-0.2, 0.5), (0.3, 1.4), (-1.0, 2.0), (0.0, 1.0)))
+    tags.append("d0d1=" + g)
+    wk = rng.choice(("typical", "typical", "typical", "typical", "typical", "large", "large", "large", "zero", "tiny", "negative"))
+    w = {"typical": 10 ** rng.uniform(-4, -1), "large": rng.uniform(0.1, 2.0), "zero": 0.0, "tiny": rng.choice((1e-16, 1e-15)), "negative": -0.01}[wk]
+    tags.append("width=" + wk)
+    mid = rng.choice((0.5, rng.uniform(0.02, 0.98), rng.uniform(0.02, 0.98), 0.0, 1.0))
+    pk = rng.choice(("1", "2", "2", "integer", "real", "below-1"))
+    pw = {"1": 1.0, "2": 2.0, "integer": float(rng.randint(3, 6)), "real": rng.uniform(1.0, 6.0), "below-1": rng.uniform(-1.0, 0.99)}[pk]
+    tags.append("power=" + pk)
+    we = max(w, MINVAL)
+    me = _clip(mid, MINIMP, MAXIMP)
+    xk = rng.choice(("zero", "below-mid", "below-mid", "at-mid", "above-mid", "above-mid", "one", "saturated"))
+    x = {"zero": 0.0, "below-mid": me * rng.uniform(0.01, 0.99), "at-mid": me, "above-mid": me + (1 - me) * rng.uniform(0.01, 0.99), "one": 1.0,
+         "saturated": rng.uniform(1.01, 50.0)}[xk]
+    tags.append("x=" + xk)
+    pos = x * we * rng.choice((1.0, -1.0))
+    if wk in ("zero", "tiny", "negative"):
+        pos = rng.choice((0.0, 1.0, -1.0)) * 10 ** rng.uniform(-6, -1)
+    return [rs, ts, sr[0], sr[1], a, b, w, mid, pw, pos], tags
+
+
+def _cmp_kbi(a, b, tol=TOL_KBI):
+    """tokens (hex bits) of two (K, B, I) triples: per-component relative agreement"""
+    if len(a) != len(b) or len(a) != 3:
+        return False, float("inf")
+    dev = 0.0
+    for s, t in zip(a, b):
+        try:
+            x, y = frombits(s), frombits(t)
+        except ValueError:
+            return False, float("inf")
+        if x != x or y != y:
+            if (x != x) != (y != y):
+                return False, float("inf")
+            continue
+        if x == y:
+            continue
+        if math.isinf(x) or math.isinf(y):
+            return False, float("inf")
+        dev = max(dev, abs(x - y) / max(1.0, abs(y)))
+    return dev <= tol, dev
+
+
+def kbi_streams(ctx, pair, orc, n):
+    """stiffness / damping / impedance of a constraint row: (1) the hand model mjxKbi (Lean, Float) against the real constraint._kbi,
+    (2) the hand model cKbi against the real C engine, (3) property oracle: the real _kbi against the real C engine wherever theorem
+    mjx_kbi_eq_c applies"""
+    rng = ctx.rng
+    drv = ctx.driver("drv_c43")
+    if not drv:
+        return
+    co, ho = pair.load(KBI_MODEL)
+    if not pair.c_ok:
+        ctx.oblige("tree build compiles the one-equality model of the K/B/I stream", "environment", False, co)
+        return
+    hist = ctx.extra.setdefault("kbi_input_histogram", {})
+    ops = []
+    for _ in range(n):
+        a, tags = kbi_input(rng)
+        cls = kbi_class(*a)
+        for t in tags + ["class=" + (cls or "inside-theorem-hypotheses")]:
+            hist[t] = hist.get(t, 0) + 1
+        ops.append((a, cls))
+    toks = [" ".join(fbits(x) for x in a) for a, _ in ops]
+    mjx_out, c_out = [], []
+    for t in toks:
+        o = pair.h.ask("kbi " + t)
+        c = pair.c.ask("kbip " + t)
+        if o is None or c is None:
+            raise common.Infra("a harness died during the K/B/I stream")
+        mjx_out.append(o)
+        c_out.append(c)
+    if pair.h.ask("kbi " + toks[0].replace(fbits(ops[0][0][0]), fbits(0.5), 1)) != "bad-op" or pair.c.ask("kbip " + toks[0][:-1]) != "bad-op":
+        raise common.Infra("K/B/I harness ops accept malformed input")
+    lines_m = ["kbi_mjx " + t for t in toks]
+    lines_c, idx_c = [], []
+    for i, (t, c) in enumerate(zip(toks, c_out)):
+        w = c.split()
+        if len(w) == 4:
+            lines_c.append("kbi_c " + " ".join(t.split()[:9] + [w[0]]))
+            idx_c.append(i)
+    lines_m.append("kbi_mjx " + toks[0][:-1])
+    rc, om, em = ctx.run_lines([drv], lines_m + lines_c)
+    if rc or len(om) != len(lines_m) + len(lines_c):
+        raise common.Infra("drv_c43 failed on the K/B/I stream: %s" % em[-300:])
+    oc = om[len(lines_m):]
+    bad_m, bad_c, dev_m, dev_c, dev_o = [], [], 0.0, 0.0, 0.0
+    if om[len(lines_m) - 1] != "bad-op":
+        bad_m.append({"line": lines_m[-1], "model": om[len(lines_m) - 1], "impl": "bad-op"})
+    for i, (l, mo, io) in enumerate(zip(lines_m[:-1], om, mjx_out)):
+        good, dev = _cmp_kbi(io.split(), mo.split())
+        ctx.count(l)
+        if good:
+            dev_m = max(dev_m, dev)
+        else:
+            bad_m.append({"line": l, "args(rs ts sr0 sr1 d0 d1 width mid power pos)": ops[i][0], "model(mjxKbi, Lean Float)": mo, "impl(constraint._kbi)": io,
+                          "model_values": [frombits(t) for t in mo.split()] if mo != "bad-op" else None,
+                          "impl_values": [frombits(t) for t in io.split()] if len(io.split()) == 3 and not io.startswith("error") else io})
+    if len(idx_c) != len(ops):
+        j = next(i for i in range(len(ops)) if i not in idx_c)
+        bad_c.append({"line": "kbip " + toks[j], "impl(C engine)": c_out[j], "model": "(K, B, I) expected"})
+    for l, mo, i in zip(lines_c, oc, idx_c):
+        good, dev = _cmp_kbi(c_out[i].split()[1:], mo.split())
+        ctx.count(l)
+        if good:
+            dev_c = max(dev_c, dev)
+        else:
+            bad_c.append({"line": l, "args(rs ts sr0 sr1 d0 d1 width mid power pos)": ops[i][0], "model(cKbi, Lean Float)": mo, "impl(C engine efc_KBIP)": c_out[i]})
+    ctx.oblige("correspondence constraint._kbi (real MJX, x64) vs the hand model mjxKbi of Model/MjxMath.lean on Float (%d ops incl. direct/mixed solref, "
+               "REFSAFE on/off, every solimp shape; tol %g per component)" % (len(lines_m) - 1, TOL_KBI), "correspondence", not bad_m, json.dumps(bad_m[:5]))
+    ctx.oblige("correspondence getsolparam/getimpedance/mj_makeImpedance (real C engine, efc_KBIP of a one-equality model) vs the hand model cKbi of "
+               "Model/MjxMath.lean on Float (%d ops, tol %g per component)" % (len(lines_c), TOL_KBI), "correspondence", not bad_c, json.dumps(bad_c[:5]))
+    ctx.disagreements += [dict(line=b["line"], model=str(b.get("model(mjxKbi, Lean Float)", b.get("model(cKbi, Lean Float)", b.get("model"))))[:200],
+                               impl=str(b.get("impl(constraint._kbi)", b.get("impl(C engine efc_KBIP)", b.get("impl"))))[:200], args=b.get("args(rs ts sr0 sr1 d0 d1 width mid power pos)"),
+                               stream="kbi") for b in (bad_m + bad_c)[:30]]
+    # property oracle on the two real implementations
+    outside = ctx.extra.setdefault("kbi_outside_theorem_hypotheses", {})
+    for i, (a, cls) in enumerate(ops):
+        cw, mw = c_out[i].split(), mjx_out[i].split()
+        if len(cw) != 4 or len(mw) != 3:
+            continue
+        good, dev = _cmp_kbi(mw, cw[1:], tol=1e-9)
+        if cls is not None:
+            o = outside.setdefault(cls, {"ops": 0, "differ": 0})
+            o["ops"] += 1
+            o["differ"] += 0 if good else 1
+            continue
+        orc.n += 1
+        if good:
+            dev_o = max(dev_o, dev)
+        else:
+            names = ("K", "B", "I")
+            cv, mv = [frombits(t) for t in cw[1:]], [frombits(t) for t in mw]
+            which = [names[k] for k in range(3) if not _cmp_kbi([mw[k]] * 3, [cw[1 + k]] * 3, tol=1e-9)[0]]
+            orc.fail("c43:kbi:" + "+".join(which), "constraint._kbi and the C engine disagree on %s of a constraint row: C (K, B, I) = %s, MJX = %s for solref = %s, solimp = %s, "
+                     "pos - margin = %r, timestep = %r, REFSAFE %s" % ("/".join(which), cv, mv, a[2:4], a[4:9], a[9], a[1], "active" if a[0] else "disabled"),
+                     {"args": dict(zip(("refsafe", "timestep", "solref0", "solref1", "dmin", "dmax", "width", "midpoint", "power", "pos"), a)),
+                      "c_KBI": cv, "mjx_kbi": mv, "c_model": KBI_MODEL,
+                      "how": "C: load c_model in harness/c/c43_engine.c, 'data 0', 'kbip <hex tokens of args>'; MJX: 'kbi <same tokens>' in harness/py/c43_mjx.py"})
+    ctx.extra["kbi_max_relative_deviation"] = {"_kbi vs mjxKbi": dev_m, "C engine vs cKbi": dev_c, "_kbi vs C engine (inside the theorem's hypotheses)": dev_o}
+    ctx.sample({"kbi_args": ops[0][0], "mjx_kbi": mjx_out[0], "c_kbip": c_out[0]})
+
+
 SOLVER_TIGHT = ["option tolerance 1e-14", "option iterations 100", "option ls_iterations 50"]
+
+# ------------------------------------------------------------------------------------------ constraint-parameter family
+def family_lines(cone, refsafe):
+    """one model with a row of every constraint type MJX implements except connect/weld (finding), whose solver parameters are all
+    numeric leaves of mjx.Model: plane/sphere and sphere/sphere contacts (free bodies, so that every friction row has a non-zero Jacobian)
+    with mixed geom parameters, an explicit contact pair with
+    solreffriction, two limited hinges with friction loss, a limited fixed tendon with friction loss, a joint equality"""
+    P, S = E("mjGEOM_PLANE"), E("mjGEOM_SPHERE")
+    L = ["compiler degree 0"] + SOLVER_TIGHT + ["option cone %d" % E("mjCONE_" + cone), "option disableflags %d" % (0 if refsafe else E("mjDSBL_REFSAFE")),
+         "geom 1 0", "set 1 type %d" % P, "set 1 size 5 5 0.1", "name 1 gp",
+         "body 2 0", "set 2 pos 0 0 0.1", "freejoint 3 2", "geom 4 2", "set 4 type %d" % S, "set 4 size 0.1",
+         "name 4 g1", "set 4 condim 4",
+         "body 5 0", "set 5 pos 0.21 0 0.12", "freejoint 6 5", "geom 7 5", "set 7 type %d" % S, "set 7 size 0.12",
+         "name 7 g2",
+         "body 8 0", "set 8 pos 0 1 0.1", "freejoint 9 8", "geom 10 8", "set 10 type %d" % S, "set 10 size 0.1",
+         "name 10 g3", "set 10 contype 0", "set 10 conaffinity 0",
+         "pair 11", "set 11 geomname1 gp", "set 11 geomname2 g3", "set 11 condim 6",
+         "body 12 0", "set 12 pos 1 0 1", "joint 13 12", "name 13 h1", "set 13 axis 0 1 0", "set 13 limited 1", "set 13 range -0.4 0.4", "set 13 frictionloss 0.1",
+         "geom 14 12", "set 14 size 0.08", "set 14 pos 0.3 0 0", "set 14 contype 0", "set 14 conaffinity 0",
+         "body 15 12", "set 15 pos 0.4 0 0", "joint 16 15", "name 16 h2", "set 16 axis 0 1 0", "set 16 limited 1", "set 16 range -0.5 0.5", "set 16 frictionloss 0.05",
+         "geom 17 15", "set 17 size 0.06", "set 17 pos 0.25 0 0", "set 17 contype 0", "set 17 conaffinity 0",
+         "tendon 18", "wrap 18 joint h1 1.0", "wrap 18 joint h2 0.7", "set 18 limited 1", "set 18 range -0.3 0.3", "set 18 frictionloss 0.07",
+         "equality 19", "set 19 type %d" % E("mjEQ_JOINT"), "set 19 objtype %d" % E("mjOBJ_JOINT"), "set 19 name1 h2", "set 19 name2 h1", "set 19 data 0.05 0.6 0 0 0"]
+    return L
+
+
+def fmt_f(v):
+    return " ".join(repr(float(x)) for x in v)
+
+
+def draw_solref(rng, ts, hist):
+    f = rng.choice(("standard", "standard", "standard-below-2dt", "direct", "direct"))
+    hist["solref=" + f] = hist.get("solref=" + f, 0) + 1
+    if f == "standard":
+        return [rng.uniform(0.01, 0.08), rng.choice((1.0, rng.uniform(0.3, 2.0)))]
+    if f == "standard-below-2dt":
+        return [ts * rng.uniform(0.3, 2.0), rng.uniform(0.5, 1.5)]
+    return [-rng.uniform(100.0, 4000.0), -rng.uniform(1.0, 80.0)]
+
+
+def draw_solimp(rng, hist):
+    a, b = sorted((rng.uniform(0.2, 0.99), rng.uniform(0.2, 0.99)))
+    if rng.random() < 0.15:
+        b = a
+    pk = rng.choice(("1", "2", "2", "3", "real"))
+    hist["solimp power=" + pk] = hist.get("solimp power=" + pk, 0) + 1
+    return [a, b, 10 ** rng.uniform(-3.5, -1.3), rng.uniform(0.1, 0.9), {"1": 1.0, "2": 2.0, "3": 3.0, "real": rng.uniform(1.0, 5.0)}[pk]]
+
+
+def run_family(ctx, pair, orc, rng, quick):
+    """C engine versus MJX on the family model: every solver parameter (solref in both formats, solimp, margins, gaps, solmix, friction,
+    friction loss, time step) and the state are redrawn; the structure (hence the compiled MJX program) is fixed per (cone, REFSAFE)"""
+    hist = ctx.extra.setdefault("family_parameter_histogram", {})
+    variants = [(c, r) for c in ("PYRAMIDAL", "ELLIPTIC") for r in (True, False)]
+    if quick:
+        c0 = rng.choice(("PYRAMIDAL", "ELLIPTIC"))
+        variants = [(c0, True), ("ELLIPTIC" if c0 == "PYRAMIDAL" else "PYRAMIDAL", False)]
+    ndraw = 6 if quick else 40
+    ran = 0
+    for cone, refsafe in variants:
+        L = family_lines(cone, refsafe)
+        co, ho = pair.load(L)
+        if not pair.c_ok:
+            ctx.oblige("tree build compiles the constraint-parameter family model", "environment", False, co)
+            return
+        rp0 = {"model_description": L, "how": "load the description on both sides, apply the 'setm' lines on both sides, set the state, forward / step"}
+        if not ho.startswith("ok"):
+            orc.n += 1
+            orc.fail("c43:gate:rejects-supported-model", "the constraint-parameter family model is rejected: " + ho[:200], rp0)
+            continue
+        n, bad = pair.model_equal()
+        if bad:
+            ctx.oblige("wheel-compiled model equals tree-compiled model (%d arrays, family model)" % n, "environment", False, "; ".join(bad[:8]))
+            continue
+        sz = pair.sizes
+        ngeom, njnt, nv, nt = sz["ngeom"], sz["njnt"], sz["nv"], sz["ntendon"]
+        for di in range(ndraw):
+            ts = rng.choice((0.001, 0.002, 0.005, 0.02))
+            prm = {"opt.timestep": [ts]}
+            for name, cnt in (("jnt", njnt), ("dof", nv), ("geom", ngeom), ("pair", 1), ("eq", 1)):
+                prm[name + "_solref"] = sum((draw_solref(rng, ts, hist) for _ in range(cnt)), [])
+                prm[name + "_solimp"] = sum((draw_solimp(rng, hist) for _ in range(cnt)), [])
+            for name in ("tendon_solref_lim", "tendon_solref_fri"):
+                prm[name] = sum((draw_solref(rng, ts, hist) for _ in range(nt)), [])
+            for name in ("tendon_solimp_lim", "tendon_solimp_fri"):
+                prm[name] = sum((draw_solimp(rng, hist) for _ in range(nt)), [])
+            z = rng.random() < 0.3
+            prm["pair_solreffriction"] = [0.0, 0.0] if z else draw_solref(rng, ts, hist)
+            hist["pair solreffriction " + ("zero" if z else "set")] = hist.get("pair solreffriction " + ("zero" if z else "set"), 0) + 1
+            prm["jnt_margin"] = [rng.choice((0.0, rng.uniform(0.0, 0.03))) for _ in range(njnt)]
+            prm["tendon_margin"] = [rng.choice((0.0, rng.uniform(0.0, 0.03))) for _ in range(nt)]
+            prm["geom_margin"] = [rng.choice((0.0, rng.uniform(0.0, 0.02))) for _ in range(ngeom)]
+            prm["geom_gap"] = [rng.choice((0.0, 0.0, rng.uniform(0.0, 0.01))) for _ in range(ngeom)]
+            prm["pair_margin"] = [rng.choice((0.0, rng.uniform(0.0, 0.02)))]
+            prm["pair_gap"] = [rng.choice((0.0, rng.uniform(0.0, 0.01)))]
+            prm["geom_solmix"] = [rng.choice((1.0, 1.0, 0.0, rng.uniform(0.1, 3.0))) for _ in range(ngeom)]
+            prm["geom_friction"] = sum(([rng.uniform(0.3, 1.5), rng.uniform(0.002, 0.02), rng.uniform(0.0001, 0.001)] for _ in range(ngeom)), [])
+            prm["pair_friction"] = [rng.uniform(0.3, 1.5), rng.uniform(0.3, 1.5), rng.uniform(0.002, 0.02), rng.uniform(0.0001, 0.001), rng.uniform(0.0001, 0.001)]
+            prm["dof_frictionloss"] = [0.0] * (nv - 2) + [rng.uniform(0.02, 0.5), rng.uniform(0.02, 0.5)]
+            prm["tendon_frictionloss"] = [rng.uniform(0.02, 0.3)]
+            setm = ["setm %s %s" % (k, " ".join(repr(float(x)) for x in v)) for k, v in prm.items()]
+            for l in setm:
+                a, b = pair.c.ask(l), pair.h.ask(l)
+                if a != "ok" or b != "ok":
+                    raise common.Infra("setm rejected (%s / %s): %s" % (a, b, l[:80]))
+
+            def lim(r):
+                k = rng.choice(("beyond", "beyond", "in-margin", "inside"))
+                return rng.choice((-1, 1)) * {"beyond": r + rng.uniform(0.0, 0.05), "in-margin": r - rng.uniform(0.0, 0.02), "inside": r * rng.uniform(0.0, 0.8)}[k]
+            st = {"qpos": [0.0, 0.0, 0.1 + rng.uniform(-0.03, 0.025), 1.0, 0.0, 0.0, 0.0, 0.21, 0.0, 0.12 + rng.uniform(-0.03, 0.025), 1.0, 0.0, 0.0, 0.0,
+                           0.0, 1.0, 0.1 + rng.uniform(-0.03, 0.025), 1.0, 0.0, 0.0, 0.0, lim(0.4), lim(0.5)],
+                  "qvel": [rng.gauss(0, 0.3) for _ in range(nv)]}
+            pair.set_state(st)
+            rps = dict(rp0, setm=setm, state=st, cone=cone, refsafe=refsafe)
+            if pair.c.ask("forward 0") != "ok":
+                continue
+            if pair.h.ask("forward", timeout=900) != "ok":
+                orc.n += 1
+                orc.fail("c43:mjx-forward-raises", "mjx.forward raised on the constraint-parameter family model", rps)
+                break
+            ctx.count(("family", cone, refsafe, di, "forward"))
+            ncon = pair.compare_contacts(rps)
+            hist["rows: contacts=%d" % min(ncon, 4)] = hist.get("rows: contacts=%d" % min(ncon, 4), 0) + 1
+            nefc = int(pair.c.ask("scalar 0 nefc"))
+            hist["states"] = hist.get("states", 0) + 1
+            hist["constraint rows (total)"] = hist.get("constraint rows (total)", 0) + nefc
+            pair.compare_efc(rps, tol=TOL_FAMILY, tag="family-", tol_static=1e-9)
+            pair.compare(["qfrc_constraint", "qacc", "qfrc_passive", "qacc_smooth"], "family-forward", rps, tol=TOL_FAMILY)
+            if pair.c.ask("step 0 1") == "ok":
+                if pair.h.ask("step 1", timeout=900) != "ok":
+                    orc.fail("c43:mjx-step-raises", "mjx.step raised on the constraint-parameter family model", rps)
+                    break
+                ctx.count(("family", cone, refsafe, di, "step"))
+                pair.compare(["qpos", "qvel"], "family-step", rps, tol=TOL_FAMILY)
+            ran += 1
+    ctx.extra["family_states_run"] = ran
+    ctx.extra["family_variants"] = ["cone=%s refsafe=%s" % v for v in variants]
+
 
 
 def drop_handles(lines, handles):
@@ -490,6 +827,32 @@ def agree_model(rng, quick):
         mdl.lines = [("option %s %d" % (l.split()[1], fix[l.split()[1]])) if (l.startswith("option ") and l.split()[1] in fix) else l for l in mdl.lines]
         for k in fix:
             mdl.options[k] = "(changed: see agree_model)"
+    # solver parameters: two models in three get non-default solref (both formats) / solimp / solmix on their joints, geoms, tendons and
+    # equalities, one in three of those runs with the REFSAFE safeguard disabled
+    mdl.options["solver_params"] = "default"
+    if rng.random() < 0.67:
+        ph = {}
+        extra = []
+        for l in mdl.lines:
+            w = l.split()
+            if w[0] == "joint":
+                if rng.random() < 0.6:
+                    extra += ["set %s solref_limit %s" % (w[1], fmt_f(draw_solref(rng, 0.002, ph))), "set %s solimp_limit %s" % (w[1], fmt_f(draw_solimp(rng, ph)))]
+                if rng.random() < 0.6:
+                    extra += ["set %s solref_friction %s" % (w[1], fmt_f(draw_solref(rng, 0.002, ph))), "set %s solimp_friction %s" % (w[1], fmt_f(draw_solimp(rng, ph)))]
+            elif w[0] == "geom" and rng.random() < 0.6:
+                extra += ["set %s solref %s" % (w[1], fmt_f(draw_solref(rng, 0.002, ph))), "set %s solimp %s" % (w[1], fmt_f(draw_solimp(rng, ph))),
+                          "set %s solmix %r" % (w[1], rng.choice((1.0, 0.0, rng.uniform(0.1, 3.0))))]
+            elif w[0] == "tendon" and rng.random() < 0.6:
+                extra += ["set %s solref_limit %s" % (w[1], fmt_f(draw_solref(rng, 0.002, ph))), "set %s solimp_limit %s" % (w[1], fmt_f(draw_solimp(rng, ph))),
+                          "set %s solref_friction %s" % (w[1], fmt_f(draw_solref(rng, 0.002, ph))), "set %s solimp_friction %s" % (w[1], fmt_f(draw_solimp(rng, ph)))]
+            elif w[0] == "equality" and rng.random() < 0.6:
+                extra += ["set %s solref %s" % (w[1], fmt_f(draw_solref(rng, 0.002, ph))), "set %s solimp %s" % (w[1], fmt_f(draw_solimp(rng, ph)))]
+        mdl.lines += extra
+        mdl.options["solver_params"] = "randomised"
+        if rng.random() < 0.33:
+            mdl.lines = [("option disableflags %d" % (int(l.split()[2]) | E("mjDSBL_REFSAFE"))) if l.startswith("option disableflags ") else l for l in mdl.lines]
+            mdl.options["solver_params"] = "randomised, REFSAFE disabled"
     return mdl
 
 
@@ -512,7 +875,7 @@ def run_agree(ctx, pair, orc, rng, quick, nmodels):
             ctx.oblige("wheel-compiled model equals tree-compiled model (%d arrays)" % n, "environment", False, "; ".join(bad[:8]))
             continue
         ctx.extra["model_arrays_cross_checked"] = ctx.extra.get("model_arrays_cross_checked", 0) + n
-        for k in ("integrator", "solver", "cone"):
+        for k in ("integrator", "solver", "cone", "solver_params"):
             hist["%s=%s" % (k, mdl.options[k])] = hist.get("%s=%s" % (k, mdl.options[k]), 0) + 1
         for k, v in (("free", any(j["type"] == "free" for j in mdl.joints)), ("ball", any(j["type"] == "ball" for j in mdl.joints)),
                      ("actuators", bool(mdl.actuators)), ("tendons", bool(mdl.tendons)), ("equalities", bool(mdl.equalities)),
@@ -842,6 +1205,38 @@ def run_directed(ctx, pair, orc):
                      "implicitfast with an activated muscle on a moving hinge: after one step qvel = %s in C, %s in MJX (relative %.3g): "
                      "mjd_actuator_vel includes the velocity derivative of the muscle gain, derivative.deriv_smooth_vel only the affine terms" % (c, m, d),
                      {"model_description": L, "state": st, "qvel_c": c, "qvel_mjx": m})
+    # 12-14. solver parameters outside the hypotheses of theorem mjx_kbi_eq_c: a hinge pushed 0.005 rad beyond its limit
+    base = ["compiler degree 0", "option tolerance 1e-14", "body 2 0", "joint 3 2", "set 3 axis 0 1 0", "set 3 limited 1", "set 3 range -0.5 0.5", "geom 4 2",
+            "set 4 size 0.1", "set 4 pos 0.3 0 0", "set 4 contype 0", "set 4 conaffinity 0"]
+    for key, extra, xml_attr, why in (
+            ("c43:solimp-d0-greater-than-dwidth-clipped", ["set 3 solimp_limit 0.95 0.5 0.01 0.5 2"], "solimplimit='0.95 0.5 0.01 0.5 2'",
+             "solimp with d0 > dwidth (doc/modeling.rst: the impedance goes from d0 at r = 0 to dwidth at r = width, no order is required): getimpedance "
+             "interpolates (here d = 0.725 at half the width), constraint._kbi ends with jp.clip(imp, dmin, dmax), which returns dmax = 0.5 whenever dmin > dmax"),
+            ("c43:solimp-zero-width", ["set 3 solimp_limit 0.9 0.95 0 0.5 2"], "solimplimit='0.9 0.95 0 0.5 2'",
+             "solimp with width = 0 (any width <= mjMINVAL): getimpedance returns the flat value (d0 + dwidth)/2 = 0.925, constraint._kbi replaces the width "
+             "by mjMINVAL and returns dwidth = 0.95 for every non-zero violation"),
+            ("c43:mixed-sign-solref-not-replaced", ["set 3 solref_limit 0.01 -10"], "solreflimit='0.01 -10'",
+             "solref with entries of different sign: getsolparam warns ('mixed solref format, replacing with default') and uses (0.02, 1); constraint._kbi "
+             "combines the standard-format stiffness of the first entry with the direct-format damping of the second")):
+        L = base + extra
+        co, ho = pair.load(L)
+        orc.n += 1
+        if pair.c_ok and ho.startswith("ok"):
+            st = {"qpos": [0.505], "qvel": [0.3]}
+            pair.set_state(st)
+            pair.c.ask("forward 0")
+            r = pair.h.ask("forward", timeout=900)
+            e = json.loads(pair.h.ask("out efc"))["efc"] if r == "ok" else {"aref": None, "D": None}
+            c = {"aref": pair.cnum("efc_aref"), "D": pair.cnum("efc_D"), "qacc": pair.cnum("qacc")}
+            mq = json.loads(pair.h.ask("out qacc"))["qacc"] if r == "ok" else None
+            out.append({"case": "joint limit with " + xml_attr, "c": c, "mjx": {"aref": e["aref"], "D": e["D"], "qacc": mq}})
+            same = r == "ok" and all(x and y and len(x) == len(y) and reldev(x, y) <= TOL_PIPE for x, y in ((c["aref"], e["aref"]), (c["D"], e["D"]), (c["qacc"], mq)))
+            if not same:
+                orc.fail(key, "a hinge 0.005 rad beyond its limit (qvel 0.3) with %s: C gives efc_aref %s, efc_D %s, qacc %s; MJX gives %s, %s, %s. %s"
+                         % (xml_attr, c["aref"], c["D"], c["qacc"], e["aref"], e["D"], mq, why),
+                         {"model_description": L, "state": st, "c": c, "mjx": {"aref": e["aref"], "D": e["D"], "qacc": mq},
+                          "xml": "<mujoco><compiler angle='radian'/><worldbody><body><joint axis='0 1 0' limited='true' range='-.5 .5' %s/>"
+                                 "<geom size='.1' pos='.3 0 0' contype='0' conaffinity='0'/></body></worldbody></mujoco>" % xml_attr})
     # 7. a model without any degree of freedom
     L = ["geom 1 0", "set 1 type 0", "set 1 size 5 5 0.1", "body 2 0", "set 2 pos 0 0 1", "geom 3 2", "set 3 size 0.1"]
     co, ho = pair.load(L)
@@ -955,11 +1350,17 @@ def _run(ctx, procs):
     orc = Oracle(ctx)
     pair = Pair(ctx, ceng, hx, orc)
     try:
+        kbi_streams(ctx, pair, orc, 250 if quick else 5000)
+        tm["K/B/I streams"] = round(time.time() - t0, 1)
+        t0 = time.time()
         run_directed(ctx, pair, orc)
         tm["directed cases"] = round(time.time() - t0, 1)
         t0 = time.time()
         run_gate(ctx, pair, orc, quick)
         tm["gate cases"] = round(time.time() - t0, 1)
+        t0 = time.time()
+        run_family(ctx, pair, orc, ctx.rng, quick)
+        tm["constraint-parameter family"] = round(time.time() - t0, 1)
         t0 = time.time()
         run_agree(ctx, pair, orc, ctx.rng, quick, 3 if quick else 22)
         tm["C-vs-MJX pipeline comparison"] = round(time.time() - t0, 1)
